@@ -126,6 +126,79 @@ feed:
 	return "calls=" + strings.Join(log, ",") + " status=" + status
 }
 
+// sigadd: args = pattern "n:part,part,..." (n services in ONE backing array; a part "i-j" registers
+// all[i:j] with one Add call, a part "x" registers one extra service between them), and which service
+// fails ("" none, "e<i>"/"p<i>" array service i returns an error / panics, "ex" the first extra one
+// returns an error).  Observed: the order of Shutdown calls (a<i> / x<k>) and the status.
+func execSigAdd(args []string) string {
+	n := &capNotifier{}
+	h := service.NewSignalHandler(&service.SignalHandlerConfig{
+		SignalNotifier: n, Logger: slog.New(slog.NewTextHandler(io.Discard, nil)), ShutdownTimeout: time.Second,
+	})
+	var mu sync.Mutex
+	var log []string
+	f := strings.SplitN(args[0], ":", 2)
+	cnt := Atoi(f[0])
+	all := make([]service.Interface, cnt)
+	for i := range all {
+		mode := byte('n')
+		if args[1] == "e"+I(i) {
+			mode = 'e'
+		} else if args[1] == "p"+I(i) {
+			mode = 'p'
+		}
+		all[i] = namedSvc{scriptedSvc{idx: i, mode: mode, mu: &mu, log: &log}, "a"}
+	}
+	extra := 0
+	for _, part := range strings.Split(f[1], ",") {
+		if part == "x" {
+			mode := byte('n')
+			if args[1] == "ex" && extra == 0 {
+				mode = 'e'
+			}
+			h.Add(namedSvc{scriptedSvc{idx: extra, mode: mode, mu: &mu, log: &log}, "x"})
+			extra++
+			continue
+		}
+		ij := strings.Split(part, "-")
+		h.Add(all[Atoi(ij[0]):Atoi(ij[1])]...)
+	}
+	res := make(chan int, 1)
+	go func() { res <- h.Handle(context.Background()) }()
+	select {
+	case n.c <- syscall.SIGTERM:
+	case <-time.After(5 * time.Second):
+		return "stuck-delivering-signal"
+	}
+	select {
+	case st := <-res:
+		mu.Lock()
+		defer mu.Unlock()
+		return "calls=" + strings.Join(log, ",") + " status=" + I(st)
+	case <-time.After(10 * time.Second):
+		return "stuck"
+	}
+}
+
+// namedSvc logs its calls as <tag><idx>.
+type namedSvc struct {
+	scriptedSvc
+	tag string
+}
+
+func (s namedSvc) Shutdown(ctx context.Context) error {
+	s.mu.Lock()
+	*s.log = append(*s.log, s.tag+I(s.idx))
+	s.mu.Unlock()
+	switch s.mode {
+	case 'e':
+		return errSvc
+	case 'p':
+		panic("service panic")
+	}
+	return nil
+}
+
 // ---- RefreshWorker ----
 
 type ctxKey string
@@ -446,6 +519,26 @@ func genC18(g *G) {
 	rec("")
 	g.Emit("sig", "h", "nn")
 	g.Emit("sig", "-", "n")
+	// many services: a failure far down the list (index 64 and beyond) counts like any other
+	for _, n := range []int{63, 64, 65, 66, 70, 130} {
+		for _, bad := range []int{0, 31, 63, 64, n - 1} {
+			if bad >= n {
+				continue
+			}
+			for _, kind := range []byte{'e', 'p'} {
+				outs := []byte(strings.Repeat("n", n))
+				outs[bad] = kind
+				g.Emit("sig", "t", string(outs))
+			}
+		}
+		g.Emit("sig", "q", strings.Repeat("n", n))
+	}
+	// registration through several Add calls with slices of one backing array, and an Add in between
+	for _, pat := range []string{"3:0-1,x,1-3", "3:0-3", "4:0-2,x,x,2-4", "2:0-1,1-2,x", "5:0-1,x,1-2,x,2-5", "1:x,0-1"} {
+		for _, bad := range []string{"", "e0", "p1", "ex"} {
+			g.Emit("sigadd", pat, bad)
+		}
+	}
 	// the shutdown deadline passes while a service is still shutting down: the services registered
 	// before it are shut down all the same (with the expired context)
 	for _, outs := range []string{"b", "nb", "bn", "nbn", "nnb", "nnbn", "bbn", "nBn", "eBn", "pbn", "nbe", "Bn", "nnnb"} {
@@ -494,14 +587,17 @@ func genC18(g *G) {
 func init() {
 	properties["C18"] = &Property{
 		Gen:  genC18,
-		Exec: map[string]Executor{"sig": execSig, "rw": execRW},
+		Exec: map[string]Executor{"sig": execSig, "rw": execRW, "sigadd": execSigAdd},
 		Nontrivial: func(fn string, args []string, obs string) bool {
-			if fn == "sig" {
+			if fn == "sig" || fn == "sigadd" {
 				return strings.Contains(obs, "calls=") && !strings.Contains(obs, "calls= ")
 			}
 			return strings.Contains(obs, "Rs:")
 		},
 		Class: func(fn string, args []string, obs string) string {
+			if fn == "sigadd" {
+				return "sigadd"
+			}
 			if fn == "sig" {
 				return "sig:" + obs[strings.Index(obs, "status="):]
 			}
@@ -513,6 +609,6 @@ func init() {
 			}
 			return "rw"
 		},
-		Rule: "sig: every outcome vector over {nil, error, panic} of up to 4 (5) services x signal prefixes (non-shutdown signals SIGHUP/SIGUSR1/SIGWINCH before INT/QUIT/TERM, repeated shutdown signals, no shutdown signal at all) through a fake SignalNotifier; observed: order of Shutdown calls, that each context has the shutdown deadline, the returned status (or that Handle keeps waiting). rw: RefreshWorker under a fake ClockAfter / Schedule / ContextConstructor / Refresher / ErrorHandler: scripts of ticks (refresh returning nil or an error) and one Shutdown (final refresh nil / error), ticks offered after Shutdown, RefreshOnShutdown on/off, random schedule answers; observed: every UntilNext, every After with its duration, every Refresh with the parent of its context and that the constructor was applied and the context cancelled afterwards, every ErrorHandler call with its context and error, Shutdown's return value. The select race (Shutdown during a running Refresh with the next timer already ready) is forced 60 times; both outcomes are admissible for the model, a refresh after Shutdown is marked spec=bad. distinct=arguments; non-trivial = at least one service / one loop refresh",
+		Rule: "sigadd: services registered through several Add calls with sub-slices of one backing array and single services in between; up to 130 services with one failure at a chosen index; services that use up the shutdown deadline. sig: every outcome vector over {nil, error, panic} of up to 4 (5) services x signal prefixes (non-shutdown signals SIGHUP/SIGUSR1/SIGWINCH before INT/QUIT/TERM, repeated shutdown signals, no shutdown signal at all) through a fake SignalNotifier; observed: order of Shutdown calls, that each context has the shutdown deadline, the returned status (or that Handle keeps waiting). rw: RefreshWorker under a fake ClockAfter / Schedule / ContextConstructor / Refresher / ErrorHandler: scripts of ticks (refresh returning nil or an error) and one Shutdown (final refresh nil / error), ticks offered after Shutdown, RefreshOnShutdown on/off, random schedule answers; observed: every UntilNext, every After with its duration, every Refresh with the parent of its context and that the constructor was applied and the context cancelled afterwards, every ErrorHandler call with its context and error, Shutdown's return value. The select race (Shutdown during a running Refresh with the next timer already ready) is forced 60 times; both outcomes are admissible for the model, a refresh after Shutdown is marked spec=bad. distinct=arguments; non-trivial = at least one service / one loop refresh",
 	}
 }
